@@ -229,10 +229,35 @@ impl Evil {
             }
             EvilClass::FinalSize => {
                 let id = if v & 1 == 0 { my_bidi(fresh_bidi) } else { my_uni(fresh_uni) };
-                match (v >> 1) % 4 {
+                let reset = |id: u64, fin: u64, out: &mut Vec<u8>| {
+                    out.push(0x04);
+                    varint(id, out);
+                    varint(3, out);
+                    varint(fin, out);
+                };
+                match (v >> 1) % 8 {
                     0 => {
                         stream_frame(id, 0, 10, true, &mut out);
                         stream_frame(id, 10, 1, false, &mut out);
+                    }
+                    // the final size is known from a FIN while an earlier range is still missing
+                    4 => {
+                        stream_frame(id, 0, 10, false, &mut out);
+                        stream_frame(id, 20, 10, true, &mut out);
+                        reset(id, 15, &mut out);
+                    }
+                    5 => {
+                        stream_frame(id, 0, 10, false, &mut out);
+                        stream_frame(id, 20, 10, true, &mut out);
+                        reset(id, 31, &mut out);
+                    }
+                    6 => {
+                        stream_frame(id, 20, 10, true, &mut out);
+                        stream_frame(id, 30, 1, false, &mut out);
+                    }
+                    7 => {
+                        stream_frame(id, 20, 10, false, &mut out);
+                        stream_frame(id, 0, 5, true, &mut out);
                     }
                     1 => {
                         stream_frame(id, 0, 10, true, &mut out);
@@ -253,13 +278,13 @@ impl Evil {
                 // the few bytes used here may also run into an exhausted connection window or a tiny stream window
                 let mut codes = vec![FINAL_SIZE, PROTO];
                 let initial = if v & 1 == 0 { win_bidi } else { win_uni };
-                if room < 16 || limit_of(id, initial) < 16 {
+                if room < 48 || limit_of(id, initial) < 48 {
                     codes.push(FLOW);
                 }
                 if (v & 1 == 0 && max_bidi == 0) || (v & 1 == 1 && max_uni == 0) {
                     codes.push(STREAM_LIMIT);
                 }
-                (out, codes, format!("final-size-{}|conflicting final size on stream {id} (variant {})", (v >> 1) % 4, (v >> 1) % 4), None)
+                (out, codes, format!("final-size-{}|conflicting final size on stream {id} (variant {})", (v >> 1) % 8, (v >> 1) % 8), None)
             }
             EvilClass::WrongDirection => {
                 let what;
